@@ -7,7 +7,7 @@ Part A (direct calls, exhaustive small scope): every ordered tree shape with
 <b>, terminal "t"), every ORDERED pair of nodes (identical and
 ancestor/descendant pairs included):
 
-* ``is_nth(tree, n, p1, p2)`` for n in -1..5 as int and as numeric string;
+* ``is_nth(tree, n, p1, p2)`` for n in 0..5 as int and as numeric string;
   contract for n >= 1 and a nonterminal node_1: equals ``refpred.nth``; int and
   string form agree.  Pre-conditions (documentation silent): n = 0, and a
   terminal node_1 ("a node with its NONTERMINAL symbol").
@@ -106,7 +106,7 @@ def check_tree_direct(struct) -> Tuple[Dict[str, int], List[Dict[str, Any]]]:
     for p1, n1 in nodes:
         for p2, n2 in nodes:
             # ---- nth
-            for n in range(-1, 6):
+            for n in range(0, 6):
                 want = refpred.nth(tree, n, p1, p2)
                 r_int = _call(ip.is_nth, tree, n, p1, p2)
                 r_str = _call(ip.is_nth, tree, str(n), p1, p2)
@@ -119,8 +119,9 @@ def check_tree_direct(struct) -> Tuple[Dict[str, int], List[Dict[str, Any]]]:
                            f"is_nth(n={n}) -> {r_int}, is_nth(n='{n}') -> {r_str}",
                            dict(pred="nth", n=n, p1=list(p1), p2=list(p2)))
                 if n <= 0:
-                    # occurrences are counted from 1: there is no 0-th (or negative) occurrence, the predicate is
-                    # false (the oracle says so: 1 <= N); counted separately from the N >= 1 cases
+                    # occurrences are counted from 1: there is no 0-th occurrence, the predicate is false (the oracle
+                    # says so: 1 <= N); counted separately from the N >= 1 cases.  Negative numbers are not "numeric
+                    # Strings" (ISLa asserts n.isnumeric()), hence outside the documentation and not generated.
                     counts["nth_pre_zero"] += 2
                 counts["nth_nontrivial"] += 2
                 for form, got in (("int", r_int), ("str", r_str)):
@@ -413,7 +414,7 @@ def run(rep, tier: str, seed: int) -> None:
     cfg = TIERS[tier]
     rep.bound(f"C04 bounded A: all ordered tree shapes <= {cfg['sampled_to']} nodes; all labellings (inner <a>/<b>; leaves open "
               f"<a>, epsilon <b>, terminal) for <= {cfg['full']} nodes, {cfg['per_shape']} seeded labellings per shape above; "
-              f"all ordered node pairs; nth n in -1..5 as int and numeric string; 5 level operators x 2 labels")
+              f"all ordered node pairs; nth n in 0..5 as int and numeric string; 5 level operators x 2 labels")
     rep.bound(f"C04 bounded B: grammars {B_GRAMMARS}; B1 {cfg['b1_trees']} trees (<= {cfg['b1_max_nodes']} nodes) x all ordered "
               f"pairs of nonterminal nodes x (7 binary predicates, nth 1..3, level x 5); B2 {cfg['b2_trees']}+ trees x up to 9 "
               f"nonterminal pairs x 44 quantified constraints")
